@@ -1,7 +1,23 @@
-import Driver.Proto
+import Driver.BusUtil
+import GbVerif.Spec.Serial
 namespace Driver
+open GbVerif
 
-/-- C18 correspondence (stub) -/
-def checkC18 (l : Line) : Verdict := .bad s!"stream {l.stream} not implemented"
+/-- C18: bytes that reached fd 1 (jit build `out`, non-jit build `n_out`) vs the serial spec and the I/O model -/
+def checkC18 (l : Line) : Verdict := Id.run do
+  if l.stream == "c18.fill" then
+    if l.outS "skipped" == "1" then return .ok false          -- the probe only exists in the jit build
+    if l.outS "out" != "" then return .specDiff s!"the core wrote to stdout while filling the translation cache: {l.outS "out"}"
+    return .ok true
+  let ws := parsePairs (l.inS "ws")
+  let spec := SerialSpec.output ws
+  let hexOf (bs : List Nat) : String := String.join (bs.map fun b => String.ofList [Nat.digitChar (b / 16), Nat.digitChar (b % 16)])
+  let exp := hexOf spec
+  if l.outS "halted" != "1" || l.outS "n_halted" != "1" then return .bad "program did not reach its HALT"
+  if l.outS "out" != exp then return .specDiff s!"recompiler build: stdout carries {l.outS "out"}, the serial writes define {exp}"
+  if l.outS "n_out" != exp then return .specDiff s!"interpreter build: stdout carries {l.outS "n_out"}, the serial writes define {exp}"
+  let io := ws.foldl (fun (io : Bus.Io) w => io.setByte w.1 w.2) {}
+  if hexOf io.serialOut != l.outS "out" then return .modelDiff s!"model log {hexOf io.serialOut} impl {l.outS "out"}"
+  return .ok (spec.length > 0)
 
 end Driver
